@@ -51,6 +51,14 @@ func TestMatrix(t *testing.T) {
 		for i := range c.Steps {
 			c.Steps[i].Desc = describeOps(c.Steps[i].Ops)
 		}
+		if n%2 == 0 {
+			// every other case under close-on-context-done, with step contexts that become done
+			// after the step has returned
+			c.CloseOnDone = true
+			for i := range c.Steps {
+				c.Steps[i].Ctx = []string{"cancel", "deadline", ""}[(i+n/2)%3]
+			}
+		}
 		evid.Journal(c)
 		msg, st := runCase(c)
 		if msg != "" {
